@@ -104,7 +104,8 @@ let () = Reg.register "c19.shipped" (fun inp out ->
     let l = get_int len in
     let rec mono = function (a, _) :: (((b, _) :: _) as tl) -> a <= b && mono tl | _ -> true in
     let verdict =
-      if atom st <> "ok" then "bad:recovering-parser-crashed-or-hung"
+      if atom st = "unreported" then "bad:parse-returned-a-syntax-error-the-handler-never-saw"
+      else if atom st <> "ok" then "bad:recovering-parser-crashed-or-hung"
       else if Stdlib.List.exists (fun (a, b) -> a < 0 || b > l || a > b) errs then "bad:error-range-outside-the-input"
       else if not (mono errs) then "bad:error-offsets-decrease"
       else if get_int valid = 1 && errs <> [] then "bad:error-reported-on-a-sentence"
